@@ -116,7 +116,7 @@ def aexit : Proc :=
     (tryFinally (atom groupExit) (seq (atom metricsExit) (atom stateExit)))
 
 /-- `ScopeContext.__enter__/__exit__` (synchronous scope: no group, no disposables) -/
-def senter : Proc := seq (atom stateEnter) (atom metricsEnter)
+def senter : Proc := seq (atom metricsEnter) (atom stateEnter)    -- the metrics context (which refuses re-entrance) first
 def sexit : Proc := seq (atom metricsExit) (atom stateExit)
 
 /-- `StateContext.__enter__/__exit__` (`ctx.updated`) -/
